@@ -435,6 +435,19 @@ class Interp:
         if name == "discriminant_value" and args and args[0][0] == "ref":
             d = self.discr_of(args[0][1].v)
             return Int(d) if d is not None else TOP
+        if name == "branch" and len(args) == 1 and args[0][0] == "adt" and args[0][2] is not None:
+            a = args[0]
+            CF = "core::ops::control_flow::ControlFlow"
+            if a[1] == "core::result::Result":
+                if a[2] == 0:
+                    return Adt(CF, 0, {0: a[3].get(0, Cell())})
+                return Adt(CF, 1, {0: Cell(a)})
+            if a[1] == "core::option::Option":
+                if a[2] == 1:
+                    return Adt(CF, 0, {0: a[3].get(0, Cell())})
+                return Adt(CF, 1, {0: Cell(a)})
+        if name == "from_residual" and len(args) == 1 and args[0][0] == "adt":
+            return args[0]
         if name in ("panic", "panic_fmt", "unreachable_display", "panic_nounwind", "begin_panic"):
             return DIVERGE
         if name == "deref" and args and args[0][0] == "ref" and args[0][1].v[0] == "ref":
